@@ -8,12 +8,12 @@ PROPERTY = "C08"
 RULE = ("enum: every triple (n+, n-, N) with N<=80 (quick) / N<=160 (thorough), each realised as an actual sequence "
         "(seed-chosen arrangement and spelling; every 7th triple additionally through a second arrangement). Oracle: exact "
         "rational evaluation of the stated thresholds (1/4, 35/100); never raises; result in 1..5; equal for both realisations. "
-        "boundary-band: for N=81..400 step 3 (quick) / 161..1000 (thorough) every composition within two residues of a threshold; hyp: long (128-600) highly charged sequences and sequences up to 40 residues after a generated warm-up history of other API calls on the same object (pH getters at pH 0/7/14, kappa, profiles ...). Non-trivial: every triple (distinct by (n+, n-, N)); boundary triples (FCR in {1/4, 7/20} or |NCPR| = 7/20) are counted separately.")
+        "Every third triple and every boundary triple also through a pasted spelling (lower case / whitespace the constructor strips). closest-approach-huge: 40 (thorough 120) lengths N=20j+r between 2 000 and 30 000 (40 000), r chosen so that k/N comes as close to 1/4 and 7/20 as a fraction can (1/(4N), 1/(20N)), the neighbours below/above as FCR and as |NCPR|. boundary-band: for N=81..400 step 3 (quick) / 161..1000 (thorough) every composition within two residues of a threshold; hyp: long (128-600) highly charged sequences and sequences up to 40 residues after a generated warm-up history of other API calls on the same object (pH getters at pH 0/7/14, kappa, profiles ...). Non-trivial: every triple (distinct by (n+, n-, N)); boundary triples (FCR in {1/4, 7/20} or |NCPR| = 7/20) are counted separately.")
 ASSUMPTIONS = ["thresholds as exact rationals 1/4 and 35/100, exactly as the statement gives them"]
 TECHNIQUE = "exhaustive enumeration of composition space (which the function factors through) against an exact-rational threshold oracle"
 LEVEL_TEXT = ("Exploration, complete in composition space up to N=80 (quick) / 160 (thorough): the function depends only on (n+, n-, N), "
               "every such triple is realised and compared with exact arithmetic, boundaries included.")
-LEVEL_NOTE = "Complete for the enumerated N; larger N untested (float rounding of k/N against 0.25/0.35 could differ there)."
+LEVEL_NOTE = "Complete for the enumerated N; beyond it only the compositions nearest to a threshold are tried (band to N=400/1000, closest approaches at 2 000-40 000)."
 
 
 def cases(tier, seed):
@@ -31,6 +31,9 @@ def cases(tier, seed):
                     # a realisation whose neutral residues are all of one kind (P, G, H, C, W ... in turn)
                     one = "PGHCWYSNQTAVLIMF"[(i // 5) % 16]
                     c["seqs"].append("".join(one if ch in ref.NEUTRAL else ch for ch in util.spell(util.arrange(P, M, N - P - M, rnd), rnd)))
+                if i % 3 == 0 or ref.region_boundary(P, M, N):
+                    # the same residues as they arrive from a paste (lower case, whitespace the constructor strips)
+                    c["seqs"].append(util.pasted(c["seqs"][0], rnd))
                 yield c
 
 
@@ -93,11 +96,38 @@ def band_cases(tier, seed):
                     seen.add((P, M))
                     seen.add((M, P))
         for P, M in sorted(seen):
-            yield {"comp": [P, M, N - P - M], "seqs": [util.spell(util.arrange(P, M, N - P - M, rnd), rnd)]}
+            s0 = util.spell(util.arrange(P, M, N - P - M, rnd), rnd)
+            yield {"comp": [P, M, N - P - M], "seqs": [s0, util.pasted(s0, rnd)]}
+
+
+def huge_cases(tier, seed):
+    """Closest approach to each threshold at lengths of 2 000-30 000 (thorough: to 40 000) residues: for N = 20j + r the fractions
+    k/N nearest to 1/4 and 7/20 from below and above (and the threshold itself when N admits it), as FCR and as |NCPR|.
+    r in {3, 17} gives |k/N - 7/20| = 1/(20N), r odd gives |k/N - 1/4| = 1/(4N): the smallest non-zero distances possible."""
+    rnd = random.Random(seed + 23)
+    nN, jhi = (40, 1500) if tier == "quick" else (120, 2000)
+    for i in range(nN):
+        N = 20 * rnd.randint(100, jhi) + (3, 17, 3, 17, 0, 1, 10, 7)[i % 8]
+        seen = set()
+        for num, den in ((1, 4), (7, 20)):
+            k0 = (num * N) // den
+            for c in (k0 - 1, k0, k0 + 1, k0 + 2):
+                if 0 <= c <= N:
+                    seen.add((c, 0) if i % 2 else (c // 2, c - c // 2))        # as FCR
+        d0 = (7 * N) // 20
+        for d in (d0 - 1, d0, d0 + 1, d0 + 2):
+            e = rnd.randint(0, max(0, (N - d) // 4))
+            if d >= 0 and d + 2 * e <= N:
+                seen.add((d + e, e) if i % 2 else (e, d + e))                     # as |NCPR|
+        for P, M in sorted(seen):
+            pat = ["+"] * P + ["-"] * M + ["0"] * (N - P - M)
+            rnd.shuffle(pat)
+            yield {"comp": [P, M, N - P - M], "seqs": ["".join("K" if c == "+" else "E" if c == "-" else "G" for c in pat)]}
 
 
 def parts(tier):
     return [Part("enum-triples", "enum", check=check, cases=cases, exhaustive=True, shards={"quick": 16, "thorough": 16}),
             Part("enum-boundary-band", "enum", check=check, cases=band_cases, exhaustive=False, shards={"quick": 16, "thorough": 16}),
+            Part("enum-closest-approach-huge", "enum", check=check, cases=huge_cases, exhaustive=False, shards={"quick": 16, "thorough": 16}),
             Part("hyp-after-history", "hyp", check=check_warm, strategy=lambda t: hyp_case(),
                  examples={"quick": 1600, "thorough": 16000}, shards={"quick": 16, "thorough": 16})]
